@@ -246,7 +246,37 @@ var entryPaths = []entryPath{
 // seedType is used for the outcome classes; pristine: the unmutated seed (must be accepted and work).
 // allPaths: submit through all six entry paths (keyset-level mutants, the pristine seed and every 8th key-level
 // mutant); otherwise only the two binary paths: a key-level mutation does not interact with the container format.
-func judge(x *h.X, ks *tinkpb.Keyset, seedType, what string, pristine bool, allPaths bool) {
+// rereadPaths: HISTORY on the message routes. The caller's *tinkpb.Keyset object is first read while it holds the
+// valid seed (accepted), is then edited IN PLACE into the mutant, and is read again: the second verdict must be the
+// verdict of reading the mutant afresh (whatever a reader remembers about a message object must not outlive an edit).
+var rereadPaths = []struct {
+	name, fresh string
+	open        func(seed, ks *tinkpb.Keyset) (*keyset.Handle, error, bool)
+}{
+	{"message-reread/insecurecleartextkeyset.Read(same message: seed, then edited in place)", "message/insecurecleartextkeyset.Read(MemReaderWriter)", func(seed, ks *tinkpb.Keyset) (*keyset.Handle, error, bool) {
+		m := proto.Clone(seed).(*tinkpb.Keyset)
+		rw := &keyset.MemReaderWriter{Keyset: m}
+		if _, err := insecurecleartextkeyset.Read(rw); err != nil {
+			return nil, nil, false
+		}
+		proto.Reset(m)
+		proto.Merge(m, ks)
+		hd, err := insecurecleartextkeyset.Read(rw)
+		return hd, err, true
+	}},
+	{"message-reread/keyset.NewHandleWithNoSecrets(same message: seed, then edited in place)", "message/keyset.NewHandleWithNoSecrets", func(seed, ks *tinkpb.Keyset) (*keyset.Handle, error, bool) {
+		m := proto.Clone(seed).(*tinkpb.Keyset)
+		if _, err := keyset.NewHandleWithNoSecrets(m); err != nil {
+			return nil, nil, false
+		}
+		proto.Reset(m)
+		proto.Merge(m, ks)
+		hd, err := keyset.NewHandleWithNoSecrets(m)
+		return hd, err, true
+	}},
+}
+
+func judge(x *h.X, ks *tinkpb.Keyset, seedType, what string, pristine bool, allPaths bool, seed ...*tinkpb.Keyset) {
 	view := viewOf(ks)
 	wf := ref.KeysetWellFormed(view)
 	weak, weakType := weakOf(view)
@@ -271,6 +301,7 @@ func judge(x *h.X, ks *tinkpb.Keyset, seedType, what string, pristine bool, allP
 	x.NonTrivial()
 	var first *keyset.Handle
 	accepted := 0
+	verdict := map[string]bool{}
 	paths := entryPaths
 	if !allPaths {
 		paths = entryPaths[:2]
@@ -289,12 +320,38 @@ func judge(x *h.X, ks *tinkpb.Keyset, seedType, what string, pristine bool, allP
 			continue
 		}
 		accepted++
+		verdict[ep.name] = true
 		if wf != "" {
 			x.Fail("illformed-accepted/"+wf, "%s via %s: keyset breaking rule %q was accepted", what, ep.name, wf)
 		}
 		checkHandle(x, hd, ep.name, what)
 		if first == nil {
 			first = hd
+		}
+	}
+	if allPaths && !pristine && !hasNil && len(seed) > 0 && seed[0] != nil {
+		for _, rp := range rereadPaths {
+			var hd *keyset.Handle
+			var perr error
+			applicable := true
+			if p, msg := h.Try(func() { hd, perr, applicable = rp.open(seed[0], ks) }); p {
+				x.Fail("panic-parse", "%s via %s: PANIC while reading the keyset: %s", what, rp.name, msg)
+				continue
+			}
+			x.Eval(1)
+			if !applicable {
+				continue
+			}
+			if (perr == nil) != verdict[rp.fresh] {
+				x.Fail("reread-verdict-differs", "%s via %s: accepted=%v, but the same keyset read from a fresh message object: accepted=%v", what, rp.name, perr == nil, verdict[rp.fresh])
+			}
+			if perr == nil {
+				if wf != "" {
+					x.Fail("illformed-accepted/"+wf, "%s via %s: keyset breaking rule %q was accepted", what, rp.name, wf)
+				}
+				checkHandle(x, hd, rp.name, what)
+			}
+			x.Outcome("reread/" + map[bool]string{true: "accepted", false: "rejected"}[perr == nil])
 		}
 	}
 	if weak != "" {
@@ -503,7 +560,7 @@ func mutSection(reduced bool) func(x *h.X) {
 			defer hugeMu.Unlock()
 			defer debug.FreeOSMemory()
 		}
-		judge(x, ks, seedType, what, a == 0 && b == 0 && c == 0, a != 0 || b%8 == 0)
+		judge(x, ks, seedType, what, a == 0 && b == 0 && c == 0, a != 0 || b%8 == 0, s.ks)
 	}
 }
 
